@@ -241,6 +241,17 @@ def check_text_arms(ctx, prog, f, sc, text_reg, rsb, rule, inst, tag):
             rv = s.get("rv")
             if rv and rv["k"] == "agg" and rv.get("closure") and bb in text_reg and g.path.endswith(rv["closure"].rsplit("::", 1)[-1]):
                 text_fns.append((g, set(g.reachable)))
+    # private helpers an arm delegates to (`char_at(s, key)`) belong to the arm: one level, whole body
+    for g, reg in list(text_fns):
+        for c in g.calls():
+            if c.bb in reg:
+                h = prog.fns.get(c.name)
+                if h is not None and h.crate == "minijinja" and not h.is_pub and h.kind != "closure" and h.path != f.path \
+                        and h.loc.f == f.loc.f and all(h is not x[0] for x in text_fns) and any(
+                            h.locals[l].get("prim") == "str" for l in range(1, h.argc + 1)):
+                    text_fns.append((h, set(h.reachable)))
+                    for cl in prog.closures_of(h.path):
+                        text_fns.append((cl, set(cl.reachable)))
     nbad = 0
     for g, reg in text_fns:
         for c in g.calls():
